@@ -23,7 +23,7 @@ RULE = ("cases = histories: 1..4 CREATE TABLE (same name in 2-3 schemas and with
         "which must raise. Non-trivial = >= 1 ALTER/INDEX on a script with >= 2 tables or a re-spelled reference; distinct = text."
         " Added after seeded defects: index-only columns called like ALTER keywords, IF EXISTS / ONLY noise words, spelled rename targets, every 4th history also in a dialect mode, "
         "every ordered triple of statement kinds on one 2-3 column table (quick: 8 kinds, thorough: all 15; more column draws when a kind repeats), multi-column foreign keys whose "
-        "referenced columns are called like the key columns in another order, renames that only re-spell the old name, every 7th random history without any ';' (possible since fix F18).")
+        "referenced columns are called like the key columns in another order, renames that only re-spell the old name, every 7th random history without any ';' (possible since fix F18), tables named t / t#1, columns added with an inline REFERENCES.")
 ASSUMPTIONS = ["columns named in ADD UNIQUE / ADD DEFAULT .. FOR / index lists use the column's current spelling (the property claims quoting/case-insensitive matching for tables, and DROP/RENAME/MODIFY COLUMN)",
                "alter.columns records are checked by number (an added column is the same object as the table column, so a later RENAME shows in it) plus the full FK records",
                "ADD column only with name/type/size/DEFAULT"]
@@ -44,6 +44,8 @@ SPELL = {
 def spell(rng, n, styles="puldkbD"):
     if n is None:
         return None
+    if "#" in n:
+        styles = "".join(c for c in styles if c in "pd") or "p"      # a '#' name is written plain or between double quotes
     return SPELL[rng.choice(styles)](n)
 
 
@@ -51,7 +53,7 @@ def qual(schema, name):
     return (schema + "." if schema else "") + name
 
 
-KINDS = ["add", "add_default", "drop", "rename", "modify", "uniq1", "uniq_n", "pk", "pk_unnamed", "check", "default", "fk", "fk_n", "index", "uindex"]
+KINDS = ["add", "add_default", "add_ref", "drop", "rename", "modify", "uniq1", "uniq_n", "pk", "pk_unnamed", "check", "default", "fk", "fk_n", "index", "uindex"]
 
 
 class Model:
@@ -87,6 +89,12 @@ class Model:
             t["cols"].append({"name": nm, "type": "int", "size": None, "default": 5, "unique": False})
             a.setdefault("columns", []).append("col")
             return "ALTER TABLE %s ADD %s int DEFAULT 5;" % (ref, nm)
+        if kind == "add_ref":
+            # a column added with its own inline REFERENCES: it is a column of the table like any other added column
+            nm = "fk%dcol" % k
+            t["cols"].append({"name": nm, "type": "int", "size": None, "default": None, "unique": False})
+            a.setdefault("columns", []).append("col")
+            return "ALTER TABLE %s ADD %s int REFERENCES crm.customers (id)%s;" % (ref, nm, rng.choice(["", " ON DELETE CASCADE"]))
         if kind == "drop":
             if len(names) < 2:
                 return None
@@ -181,6 +189,8 @@ class Model:
 TABLE_SETS = [
     [(None, "t")], [("sa", "t")], [("sa", "t"), ("sb", "t")], [(None, "t"), ("sa", "t")], [(None, "t"), ("sa", "t"), ("sb", "t")],
     [("sa", "Orders"), (None, "u")], [("sa", "t"), ("sb", "t"), (None, "Orders"), ("sb", "u")], [("Sa", "T"), ("sb", "t")],
+    # a table whose name continues another table's name after a '#' (legal in unquoted names of several dialects)
+    [(None, "orders"), (None, "orders#archive")], [("sa", "t"), ("sa", "t#1"), (None, "t#1")],
 ]
 
 
